@@ -701,6 +701,31 @@ func ruleStepAccounting(c *Ctx) {
 	}, isNilConst)
 	c.need(rule, leave, "call DemoteVoter.ConfVerChanged", instrCallMatcher(dvCV), []Ev{present}, all,
 		"a demoted voter is consulted only while a peer still exists on its store (looked up by store id): once a later step removed it, its demotion stays accounted for")
+	// the same in the enter step: a demoted voter that a later step already removed does not void the accounting
+	enter := P.Method(op, "ChangePeerV2Enter", "ConfVerChanged")
+	getStoreVoter := F(P.Method("server/core", "RegionInfo", "GetStoreVoter"))
+	isDemotedLookup := func(v ssa.Value) bool {
+		cl, _ := callOf(v)
+		if cl == nil || (!getStorePeer.Match(cl.Common()) && !getStoreVoter.Match(cl.Common())) {
+			return false
+		}
+		a := callArgs(cl.Common())
+		return len(a) == 1 && (isLoadOf(a[0], toStore) || fieldOfField(strip(a[0])) == toStore)
+	}
+	looked := &calledEv{name: "a demoted voter was looked up", match: func(x ssa.Instruction) bool {
+		v, ok := x.(ssa.Value)
+		return ok && isDemotedLookup(v)
+	}}
+	presentE := guardRel("peer on dv.ToStore != nil", "!=", isDemotedLookup, isNilConst)
+	c.need(rule, enter, "answer 0 (nothing accounted)", func(x ssa.Instruction) bool {
+		r, ok := x.(*ssa.Return)
+		if !ok || len(r.Results) != 1 {
+			return false
+		}
+		k, isC := constInt(r.Results[0])
+		return isC && k == 0
+	}, []Ev{looked, presentE}, func(h []bool) bool { return !h[0] || h[1] },
+		"the enter step voids its accounting over a demoted voter only while a peer still exists on that store: once a later step removed it, the demotion stays accounted for")
 	// siblings: every step that names the peer it acts on (a PeerID field) decides "my change was applied"
 	// by comparing the id of the peer found on its store with that PeerID — the store alone is not enough
 	// once a later step of the same operator put another peer there
